@@ -190,7 +190,7 @@ class ProtocolMixin(object):
         if attr is not None:
             return attr
 
-        self._attrcache[cls] = attr = DefaultAttrDict([
+        attr = DefaultAttrDict([
                 (k, getattr(cls.Attributes, k))
                         for k in dir(cls.Attributes) + META_ATTR
                                                      if not k.startswith('__')])
@@ -203,6 +203,9 @@ class ProtocolMixin(object):
             inst_attrs = cls.Attributes.prot_attrs.get(self, {})
             # logger.debug("%r inst attr %r", cls, cls_attrs)
             attr.update(inst_attrs)
+
+        # publish only when complete: other threads read this cache unlocked
+        self._attrcache[cls] = attr
 
         return attr
 
